@@ -3,12 +3,14 @@
 Enumerated per (key, hash[, MGF hash, salt length], message):
   sign      library signature == I2OSP(RSASP1(reference EM)) byte for byte (PSS: salt from a tape), verify(sign) accepted,
             sign/verify repeated on the same hash object, digest of the object unchanged
-  sig       candidate signatures: authentic, every single-bit flip (2048-bit keys: first/last 64 bits + one bit per
-            byte), wrong lengths, s+n / s+2n where they fit, 0, 1, n-1, n, n-s, 2^(8k)-1, other key, other message,
-            other hash
+  sig       candidate signatures: authentic, every single-bit flip, wrong lengths, s+n / s+2n where they fit, 0, 1, n-1, n,
+            n-s, 2^(8k)-1, other key, other message, other hash
   forge     encoded messages that are NOT what the standard prescribes, raised to d with the private key (reference
             CRT pow) so that verify() recovers exactly that EM: structured families (see v15_forgeries / pss_forgeries)
-            and every single-bit flip of the authentic EM
+            and every single-bit flip of the authentic EM (thorough tier, 4096-bit modulus: first / last 64 bits and one bit of
+            every octet); for large moduli the bit-flip alphabets are cut into slices (part, nparts) that run as separate shards
+  thorough  moduli found by _find_small() for the bit lengths the fixtures lack (GEN_T); every salt length and every
+            (hash, MGF1 hash) pair are plain configurations (hash, MGF hash, salt length) of the "pss" shard
 Oracle: library accepts => RFC 8017 verification accepts (8.2.2: EM == EMSA-PKCS1-v1_5-ENCODE(M); 8.1.2/9.1.2 steps);
 anything else than acceptance must be ValueError.
 """
@@ -89,8 +91,8 @@ def build_keys(acc, thorough=False):
         bad = R.rsa_check_key(kd["n"], kd["e"], kd["d"], kd["p"], kd["q"])
         if bad:
             acc.error("key %s fails the reference consistency check: %s" % (name, bad))
-    if len({(kd["n"], kd["e"]) for kd in ks.values()}) != len(ks) or len({kd["n"] for kd in ks.values()}) != len(ks):
-        acc.error("two RSA keys of the grid share a modulus")
+    if len({(kd["n"], kd["e"]) for kd in ks.values()}) != len({kd["n"] for kd in ks.values()}):
+        acc.error("two RSA keys of the grid share a modulus but not the public exponent")
     _KEYS = ks
     _THOROUGH_KEYS = bool(thorough)
     return ks
@@ -702,6 +704,7 @@ def worker(shards):
         first = sl is None or sl[0] == 0
         if kind == "v15":
             # ("v15", key, hash, message names, what, other key[, slice]) ; what subset of {"sig", "flips", "forge", "emflips"}
+            # ("emflips64" instead of "emflips", 4096-bit modulus: first and last 64 bits and one bit of every octet of the EM)
             _, _, hn, mnames, what, other = sh[:6]
             acc.seen("v15_cfgs", (kd["bits"], kd["e"], hn))
             for mn in mnames:
@@ -729,6 +732,8 @@ def worker(shards):
                     cands = list(v15_forgeries(kd, hn, msg))
                     if "emflips" in what:
                         cands += list(em_flips(cands[0][1], flipmode))
+                    elif "emflips64" in what:
+                        cands += list(em_flips(cands[0][1], "ends64+bytewise"))
                     for tag, em in _sliced(cands, sl):
                         if em is None or len(em) != kd["k"]:
                             acc.count("forgery_not_constructible")
@@ -782,9 +787,9 @@ def worker(shards):
                                    *pss_verify_case(kd, (oh, cfg[1] or hn, sl), msg, sig, "other-hash", acc))
                 if "forge" in what:
                     cands = list(pss_forgeries(kd, cfg, msg))
-                    if "emflips" in what and cands and cands[0][1] is not None:
+                    if ("emflips" in what or "emflips64" in what) and cands and cands[0][1] is not None:
                         em0 = R.i2osp(cands[0][1], em_len)
-                        cands += [(t, R.os2ip(e), False) for t, e in em_flips(em0, flipmode)]
+                        cands += [(t, R.os2ip(e), False) for t, e in em_flips(em0, flipmode if "emflips" in what else "ends64+bytewise")]
                     for tag, m, made in _sliced(cands, bitslice):
                         if m is None:
                             acc.count("forgery_not_constructible")
